@@ -24,6 +24,7 @@ Everything else raises AnalysisError (exit 2) -- never a guess.
 from __future__ import annotations
 
 import ast
+import copy
 
 from .loader import AnalysisError, norm, is_logging_stmt
 
@@ -58,6 +59,17 @@ _TYPES = {'int': int, 'str': str, 'tuple': tuple, 'list': list, 'bool': bool, 'f
           'MutableMapping': dict, 'Mapping': dict}
 
 
+class Sym(str):
+    """A symbolic (opaque) operand.  Arithmetic on it builds Term objects instead of numbers."""
+
+
+class Term(tuple):
+    """(operator name, left, right): an uninterpreted arithmetic term over Sym / numbers."""
+
+
+_BINOPS = {ast.Add: '+', ast.Sub: '-', ast.Mult: '*', ast.Div: '/', ast.Mod: '%', ast.FloorDiv: '//'}
+
+
 class MiniEval:
     def __init__(self, rule: str, env: dict, resolve=None, depth: int = 0):
         """resolve(text of the called expression) -> ast.FunctionDef | None : lets the evaluator
@@ -83,8 +95,20 @@ class MiniEval:
         if isinstance(e, ast.NamedExpr) and isinstance(e.target, ast.Name):
             self.env[e.target.id] = self.ev(e.value)
             return self.env[e.target.id]
-        if isinstance(e, ast.BinOp) and isinstance(e.op, (ast.Add, ast.Sub)):
+        if isinstance(e, ast.BinOp) and type(e.op) in _BINOPS:
             l, r = self.ev(e.left), self.ev(e.right)
+            if isinstance(l, (Sym, Term)) or isinstance(r, (Sym, Term)):
+                return Term((_BINOPS[type(e.op)], l, r))
+            if not isinstance(e.op, (ast.Add, ast.Sub)):
+                if isinstance(l, bool) or isinstance(r, bool) or not isinstance(l, (int, float)) \
+                        or not isinstance(r, (int, float)):
+                    raise _Fault('TypeError')
+                try:
+                    return {'*': l * r, '/': l / r if r else None, '%': l % r if r else None,
+                            '//': l // r if r else None}[_BINOPS[type(e.op)]] if r or isinstance(e.op, ast.Mult) \
+                        else (_ for _ in ()).throw(_Fault('ZeroDivisionError'))
+                except ZeroDivisionError:
+                    raise _Fault('ZeroDivisionError') from None
             if isinstance(l, bool) or isinstance(r, bool) or not isinstance(l, (int, float)) \
                     or not isinstance(r, (int, float)):
                 raise _Fault('TypeError')
@@ -224,6 +248,13 @@ class MiniEval:
                     if out[0] == 'raise':
                         raise _Raised(out[1])
                     raise _Fault(out[1])
+        if isinstance(e, ast.Call) and isinstance(e.func, ast.Attribute) and not e.keywords and \
+                e.func.attr in ('replace', 'strip', 'lower', 'upper', 'startswith', 'endswith'):
+            base = self.ev(e.func.value)
+            if isinstance(base, str) and not isinstance(base, Sym):
+                args_ = [self.ev(a) for a in e.args]
+                if all(isinstance(a, (str, int)) for a in args_):
+                    return getattr(base, e.func.attr)(*args_)
         if isinstance(e, ast.Call) and isinstance(e.func, ast.Name) and not e.keywords:
             if e.func.id == 'isinstance' and len(e.args) == 2:
                 v = self.ev(e.args[0])
@@ -242,6 +273,33 @@ class MiniEval:
                 return len(v)
             if e.func.id == 'bool' and len(e.args) == 1:
                 return bool(self.ev(e.args[0]))
+            if e.func.id in ('float', 'int') and len(e.args) == 1:
+                v = self.ev(e.args[0])
+                if isinstance(v, (Sym, Term)):
+                    return Term((e.func.id, v, None))
+                if isinstance(v, (int, float)) and not isinstance(v, bool):
+                    return float(v) if e.func.id == 'float' else int(v)
+                if isinstance(v, str):
+                    try:
+                        return float(v) if e.func.id == 'float' else int(v)
+                    except ValueError:
+                        raise _Fault('ValueError') from None
+                raise _Fault('TypeError')
+            if e.func.id == 'reversed' and len(e.args) == 1:
+                v = self.ev(e.args[0])
+                if not isinstance(v, (tuple, list, str)):
+                    raise _Fault('TypeError')
+                return list(reversed(v))
+            if e.func.id == 'zip':
+                vs = [self.ev(a) for a in e.args]
+                if not all(isinstance(v, (tuple, list, str)) for v in vs):
+                    raise _Fault('TypeError')
+                return [tuple(t) for t in zip(*vs)]
+            if e.func.id in ('max', 'min') and len(e.args) == 2:
+                a_, b_ = self.ev(e.args[0]), self.ev(e.args[1])
+                if all(isinstance(x, (int, float)) and not isinstance(x, bool) for x in (a_, b_)):
+                    return max(a_, b_) if e.func.id == 'max' else min(a_, b_)
+                raise _Fault('TypeError')
             if e.func.id == 'abs' and len(e.args) == 1:
                 v = self.ev(e.args[0])
                 if isinstance(v, bool) or not isinstance(v, (int, float)):
@@ -307,6 +365,10 @@ class MiniEval:
                 elif exc is not None:
                     name = norm(exc)
                 raise _Raised(name or 're-raise')
+            elif isinstance(st, ast.AugAssign) and type(st.op) in _BINOPS:
+                load = copy.copy(st.target)
+                load.ctx = ast.Load()
+                self.assign(st.target, self.ev(ast.BinOp(left=load, op=st.op, right=st.value)))
             elif isinstance(st, ast.For) and not st.orelse:
                 seq = self.ev(st.iter)
                 if not isinstance(seq, (list, tuple, set, frozenset, dict, str)):
